@@ -272,6 +272,49 @@ def run(chk):
         if txt not in MIXED[f["n"]]:
             chk.violation(r_mx, f["n"], "scalar %s Evaluation is implemented as `%s` ($0: the scalar, $1: the Evaluation); the all-Evaluation form gives `%s`" % (f["n"][8:], txt, MIXED[f["n"]][0]), f["file"], f["l"])
 
+    # ---- C16.smallvec: the storage of the dynamically sized Evaluation
+    r_sv = chk.rule("C16.smallvec", "FastSmallVector (storage of DynamicEvaluation): the data pointer always designates the buffer that holds the elements - the inline buffer when size_ <= N, the heap vector otherwise: every member that sets size_ re-points dataPtr_ accordingly in both branches of its size test (the copy assignment may skip the heap copy only for self-assignment), and the members that set size_ to 0 point it at the inline buffer; element access goes through dataPtr_", floor=5)
+    svx = chk.facts([UNIT], files_re=r"^/repo/opm/material/common/FastSmallVector\.hpp$")
+    svf = [f for f in svx.fns if (f.get("cls") or "").endswith("FastSmallVector") and f.get("body") is not None]
+    if len(svf) < 6:
+        raise core.AnalysisBroken("FastSmallVector members not found through %s (%d)" % (UNIT, len(svf)))
+    SMALL, LARGE = "(this.dataPtr_ = this.smallBuf_.data())", "(this.dataPtr_ = this.data_.data())"
+    n_sv = 0
+    for f in svf:
+        sets = [n for n in walk(f["body"]) if n["k"] == "Bin" and n.get("asg") and n["op"] == "=" and show(strip(n["c"][0])) == "this.size_"]
+        if not sets:
+            continue
+        key = "%s%s@%d" % (f["n"], f.get("sig", "")[:40], f["l"])
+        n_sv += 1
+        txt = show(f["body"])
+        if all(show(strip(n["c"][1])) == "0" for n in sets):
+            ok = SMALL in [show(x) for x in stmt_list(f["body"])]
+            chk.instance(r_sv, key, sample=dict(member=f["q"], sets_size_to="0", repoints=ok))
+            if not ok:
+                chk.violation(r_sv, key, "FastSmallVector::%s sets size_ to 0 without pointing dataPtr_ at the inline buffer" % f["n"], f["file"], f["l"])
+            continue
+        tests = [n for n in walk(f["body"]) if n["k"] == "If" and show(strip(n["cond"])) in ("(this.size_ <= N)", "(this.size_ > N)", "(N >= this.size_)", "(N < this.size_)")]
+        ok = len(tests) == 1
+        why = "no single test of size_ against N"
+        if ok:
+            t = tests[0]
+            small_first = show(strip(t["cond"])) in ("(this.size_ <= N)", "(N >= this.size_)")
+            br_small = t["then"] if small_first else t.get("else")
+            br_large = t.get("else") if small_first else t["then"]
+            s_ok = br_small is not None and SMALL in [show(x) for x in walk(br_small) if x["k"] == "Bin"]
+            l_ok = br_large is not None and LARGE in [show(x) for x in walk(br_large) if x["k"] == "Bin"]
+            ok = s_ok and l_ok
+            why = "%s%s" % ("" if s_ok else "the branch for size_ <= N does not set dataPtr_ = smallBuf_.data(); ", "" if l_ok else "the branch for size_ > N does not set dataPtr_ = data_.data()")
+        chk.instance(r_sv, key, sample=dict(member=f["q"], size_tests=[show(t["cond"]) for t in tests], ok=ok))
+        if not ok:
+            chk.violation(r_sv, key, "FastSmallVector::%s (line %d) sets size_ but %s: an object that kept its elements on the heap and is then given an inline-sized content (or the reverse) still reads and writes the old buffer - a re-used DynamicEvaluation returns the previous, larger evaluation" % (f["n"], f["l"], why), f["file"], f["l"])
+    acc = [f for f in svf if f["n"] == "operator[]"]
+    for f in acc:
+        n_sv += 1
+        chk.instance(r_sv, "operator[]@%d" % f["l"], sample=dict(body=show(f["body"])))
+        if "this.dataPtr_[" not in show(f["body"]):
+            chk.violation(r_sv, "operator[]@%d" % f["l"], "FastSmallVector::operator[] no longer reads through dataPtr_", f["file"], f["l"])
+
     # ---- C16.dynsize: the members that handle the run-time size, decided one by one instead of being exempted
     r_ds = chk.rule("C16.dynsize", "DynamicEvaluation.hpp, run-time size: size() is data_.size() - 1 and length_() is data_.size(); the sized constructors allocate 1 + n entries, zero-filled where a value is given, set the value from their argument and (variable constructor) set entry varPos + dstart_() to 1; the create* factories pass the size of their Evaluation argument (or their count argument) first and their remaining arguments in order (createConstantZero/One: 0 and 1); unary minus negates all length_() entries of a copy of *this", floor=12)
     from verif import symb as sy_
